@@ -7,16 +7,20 @@ property's own predicates on the implementation's outputs):
                 (incl. the Hessian-of-p term and a Jacobian that is NOT the model's) vs model; exact Taylor identities
                 f(v+h) = f v + <g,h> + 1/2 h'Hh and g(v+h) = g v + H h on the implementation's outputs; error branches.
   se_qt         set_from_standard_qtomography_option_data on the four tomography types, both parametrisations, outcome
-                counts 2..6, every weighting mode, fresh and reused objects, generic and fast class:
-                (a) faithful state-machine model (weights, cached extension, value, gradient, Hessian) must agree;
-                (b) the property: the configured mode must take effect (value = formula with the weights the mode
-                    denotes for THIS data) and fast = generic.
+                counts 2..6, every weighting mode, fresh and reused objects, direct setter, generic and fast class:
+                (a) value/gradient/Hessian formulas at the object's own weights / cache;
+                (b) the property: the configured mode takes effect (value = formula with the weights the mode denotes for
+                    THIS data, inverse certified exactly) for any outcome count, and fast = generic;
+                (c) object state (weights, cached extension) after every call = the state-machine model of the code
+                    (Model/C12_Loss.v = the code with the repairs /verif/fixes/c12-*.diff).
   re_callables  WeightedRelativeEntropy from callables, inside / outside the positive region (clipping branches),
                 zero data entries, weights: value (model terms, logarithm evaluated with 50 digits), gradient, Hessian.
   re_qt         relative entropy through the tomography configuration, custom weights via option / constructor /
-                setter, generic vs fast, Euler identities (b = 0), finite-difference consistency.
+                setter, generic vs fast, object state vs the state-machine model, Euler identities (b = 0),
+                finite-difference consistency.
   fns           quara.math.entropy functions (scalar and vector forms, validation branches), replace_prob_dist,
-                calc_covariance_mat, inverse-covariance weight construction for 2..5 outcomes (inverse certified exactly).
+                calc_covariance_mat, inverse-covariance weight construction for 2..5 outcomes and all three accepted
+                spellings (inverse certified exactly, leading-block placement).
   simple_quadratic
 """
 import warnings
@@ -128,15 +132,16 @@ def m_se_fast(m, N, nv, A, b, q, v, E):
     return r[0], r[1:]
 
 
-def m_inv_weight(m, unbiased, mm, nd, q, fixed):
-    """-> ('ok', W flat m*m Fractions) | ('err', code).  The inverse is computed here exactly and CERTIFIED by the model."""
+def m_inv_weight(m, unbiased, mm, nd, q):
+    """-> ('ok', W flat m*m Fractions) | ('err', code).  The inverse is computed here exactly and CERTIFIED by the model
+    (two-sided product = I), then symmetrised and placed on the leading block by the model of the code (place_inv)."""
     n32 = float(nd) ** (3 / 2)
     M = m.call("c12.extracted", [int(unbiased), mm], [REPL_EPS, float(nd), n32] + list(q))
     k = mm - 1
     inv = frac_inverse([M[i * k:(i + 1) * k] for i in range(k)])
     if inv is None:
         return ("err", 3)
-    return m.try_call("c12.inv_weight", [int(unbiased), mm, int(fixed)], [REPL_EPS, float(nd), n32] + list(q) + [x for r in inv for x in r])
+    return m.try_call("c12.inv_weight", [int(unbiased), mm], [REPL_EPS, float(nd), n32] + list(q) + [x for r in inv for x in r])
 
 
 def m_re_parse(r, N, nv, hess=True):
@@ -186,6 +191,10 @@ def get_exp(name):
         if typ == "qst":
             qt = StandardQst(povms, on_para_eq_constraint=para, schedules="all")
             obj = State(c_sys, np.array([1, 0, 0, 0]) / s2, on_para_eq_constraint=para)
+        elif typ == "qst2":       # two qubits: 9 product Pauli POVMs with 4 outcomes each, 15 / 16 variables (k is ignored)
+            c2 = generate_composite_system("qubit", 2)
+            qt = StandardQst(generate_tester_povms(c2, ["x", "y", "z"]), on_para_eq_constraint=para, schedules="all")
+            obj = State(c2, np.array([0.5] + [0.0] * 15), on_para_eq_constraint=para)
         elif typ == "povmt":
             qt = StandardPovmt(states, num_outcomes=k, on_para_eq_constraint=para, schedules="all")
             obj = Povm(c_sys, [np.array([s2 / k, 0, 0, 0])] * k, on_para_eq_constraint=para)
@@ -209,7 +218,8 @@ def get_exp(name):
 
 EXP_QUICK = ["qst-2-T", "qst-2-F", "qst-3-T", "qst-4-F", "qst-5-T", "povmt-2-T", "povmt-2-F", "povmt-3-F", "povmt-4-T", "povmt-5-F",
              "qpt-2-T", "qpt-2-F", "qpt-3-F", "qmpt-2-T", "qmpt-2-F"]
-EXP_MORE = ["qst-3-F", "qst-4-T", "qst-5-F", "povmt-3-T", "povmt-4-F", "povmt-5-T", "qpt-3-T", "qpt-4-T", "qmpt-3-T", "qmpt-3-F"]
+EXP_MORE = ["qst-3-F", "qst-4-T", "qst-5-F", "povmt-3-T", "povmt-4-F", "povmt-5-T", "qpt-3-T", "qpt-4-T", "qmpt-3-T", "qmpt-3-F",
+            "qst2-4-T", "qst2-4-F"]
 
 
 def rand_q(rng, m, nd, zeros=True):
@@ -362,8 +372,8 @@ def sub_se_callables(ctx):
 
 
 # ================================================================== se_qt
-def spec_weights(m, ns, mm, step, fixed):
-    """weights the mode denotes for THIS data (fixed=1: intended placement) or as coded (fixed=0).
+def spec_weights(m, ns, mm, step):
+    """weights the mode denotes for THIS data (= what the model of the code installs, theorem C12_modes_effective).
        -> ('none',) | ('w', flat list) | ('err', code)"""
     mode = step["mode"]
     if mode == 0:
@@ -372,7 +382,7 @@ def spec_weights(m, ns, mm, step, fixed):
         return ("none",) if step.get("custom") is None else ("w", list(step["custom"]))
     out = []
     for j in range(ns):
-        st, W = m_inv_weight(m, mode in (3, 4), mm, step["nd"][j], step["q"][j * mm:(j + 1) * mm], fixed)
+        st, W = m_inv_weight(m, mode in (3, 4), mm, step["nd"][j], step["q"][j * mm:(j + 1) * mm])
         if st == "err":
             return ("err", W)
         out += W
@@ -415,13 +425,25 @@ def se_state(obj, fast):
     return w, e
 
 
+class Fired:
+    """ctx.violation wrapper that remembers whether a violation was reported (to avoid reporting one defect twice)"""
+    def __init__(self, ctx, sub):
+        self.ctx = ctx; self.sub = sub; self.n = 0
+
+    def __call__(self, site, sig, what, case):
+        self.n += 1
+        self.ctx.violation(self.sub, site, sig, what, case)
+
+
 def chk_se_qt(ctx, case):
-    """every configuration step is compared LOCALLY: from the object's own state before the call the model of the code as
-    it is (and, as an accepted alternative, the model with the proposed fixes) predicts the state after the call"""
+    """every configuration step is compared LOCALLY with the model of the code (Model/C12_Loss.v, the repaired code): from
+    the object's own state before the call the model predicts weights and cached extension after the call; then the
+    property's predicates are evaluated on the implementation's outputs (reported first, with their specific signature)"""
     from quara.loss_function.weighted_probability_based_squared_error import WeightedProbabilityBasedSquaredError
     from quara.loss_function.standard_qtomography_based_weighted_probability_based_squared_error import (
         StandardQTomographyBasedWeightedProbabilityBasedSquaredError)
     m = ctx.get_model()
+    viol = Fired(ctx, "se_qt")
     e = get_exp(case["exp"]); qt = e["qt"]; ns, mm, nv = e["ns"], e["m"], e["nv"]; N = ns * mm
     A = fl(e["A"]); b = fl(e["b"])
     v = np.array(case["v"], dtype=np.float64); h = np.array(case["h"], dtype=np.float64)
@@ -434,24 +456,30 @@ def chk_se_qt(ctx, case):
             key = ("seqt", case["exp"], k, tuple(case["v"]), tuple(step["q"]), mode, tuple(s["mode"] for s in case["steps"][:k]))
             label = "%s-%s-%s" % (case["exp"].split("-")[0], MODES.get(mode, "setter"), "fresh" if k == 0 else "reused")
             data = [(int(step["nd"][j]), np.array(step["q"][j * mm:(j + 1) * mm], dtype=np.float64)) for j in range(ns)]
-            coded = spec_weights(m, ns, mm, step, 0) if mode in (2, 3, 4) else None
-            spec = spec_weights(m, ns, mm, step, 1)
+            spec = spec_weights(m, ns, mm, step)
+            if spec[0] == "err":
+                viol("WeightedProbabilityBasedSquaredError._set_weights_by_mode", "model-mismatch:certificate",
+                     "step %d: the exact inverse of the regularised covariance block was not certified (code %s)" % (k, spec[1]), case)
+                return
             has_c = 1 if (mode in (1, 5) and step.get("custom") is not None) else 0
-            has_k = 1 if (coded and coded[0] == "w") else 0
-            stepq = (list(step["custom"]) if has_c else []) + (list(coded[1]) if has_k else [])
+            has_k = 1 if mode in (2, 3, 4) else 0
+            stepq = (list(step["custom"]) if has_c else []) + (list(spec[1]) if has_k else [])
             try:
                 opts = [None, None] if mode == 5 else [se_option(step, mm, ns, False), se_option(step, mm, ns, True)]
             except ValueError:
                 # the option class no longer accepts this mode: nothing to take effect
                 ctx.count("se_qt", key=key, nontrivial=False, label=label + "-mode-rejected-by-option")
                 if mode != 4:
-                    ctx.violation("se_qt", "WeightedProbabilityBasedSquaredErrorOption", "model-mismatch:option", "mode %s rejected by the option class" % MODES.get(mode), case)
+                    viol("WeightedProbabilityBasedSquaredErrorOption", "model-mismatch:option", "mode %s rejected by the option class" % MODES.get(mode), case)
                 continue
-            outcome = []
+            raised = []; mism = []; prev_gw = None
             for obj, fast, opt in ((G, False, opts[0]), (Fs, True, opts[1])):
                 w0, e0 = se_state(obj, fast)
-                st_c, r_c = m.try_call("c12.config_from", [1 if fast else 0, ns, mm, 0 if w0 is None else 1, 0 if e0 is None else 1, mode, has_c, has_k],
-                                       (w0 or []) + (e0 or []) + stepq)
+                if not fast:
+                    prev_gw = w0
+                r_c = m.call("c12.config_from", [1 if fast else 0, ns, mm, 0 if w0 is None else 1, 0 if e0 is None else 1, mode, has_c, has_k],
+                             (w0 or []) + (e0 or []) + stepq)
+                Wc, Ec = parse_config(r_c, ns, mm)
                 try:
                     if mode == 5:
                         ws = None if step.get("custom") is None else [np.array(step["custom"][j * mm * mm:(j + 1) * mm * mm], dtype=np.float64).reshape(mm, mm) for j in range(ns)]
@@ -459,39 +487,23 @@ def chk_se_qt(ctx, case):
                         obj.set_weight_matrices(ws)
                     else:
                         obj.set_from_standard_qtomography_option_data(qt, opt, data, True, not fast)
-                    err = None
-                except ValueError:
-                    err = "ValueError"
+                except ValueError as exc:
+                    raised.append("%s class: ValueError: %s" % ("fast" if fast else "generic", str(exc)[:160]))
+                    continue
                 w1, e1 = se_state(obj, fast)
-                Wx = None if spec[0] != "w" else spec[1]            # weights the mode denotes (fixed placement)
-                if err is not None:
-                    if st_c != "err":
-                        ctx.violation("se_qt", "set_from_standard_qtomography_option_data", "model-mismatch:error-branch",
-                                      "step %d mode %s (%s): implementation raises, model of the code does not" % (k, MODES.get(mode), "fast" if fast else "generic"), case)
-                        return
-                    outcome.append("raised"); continue
-                Wc, Ec = (None, None) if st_c == "err" else parse_config(r_c, ns, mm)
-                w_coded = st_c == "ok" and same(w1, Wc)
-                w_fixed = spec[0] != "err" and same(w1, Wx)
-                if not (w_coded or w_fixed):
-                    ctx.violation("se_qt", "set_from_standard_qtomography_option_data", "model-mismatch:%s-weights" % ("fast" if fast else "generic"),
-                                  "step %d mode %s: weights after the call are neither those of the model of the code nor those the mode denotes" % (k, MODES.get(mode)), case)
-                    return
-                if fast:
-                    e_coded = st_c == "ok" and same(e1, Ec)
-                    e_fixed = same(e1, None if w1 is None else m.call("c12.ext_of", [ns, mm], w1))
-                    if not (e_coded or e_fixed):
-                        ctx.violation("se_qt", "set_from_standard_qtomography_option_data", "model-mismatch:fast-cached-extension",
-                                      "step %d mode %s: cached extension is neither the one predicted by the model of the code nor the extension of the current weights" % (k, MODES.get(mode)), case)
-                        return
-                    outcome.append("cache-" + ("current" if e_fixed else "stale"))
+                if not same(w1, Wc):
+                    mism.append("%s-weights" % ("fast" if fast else "generic"))
+                if fast and not same(e1, Ec):
+                    mism.append("fast-cached-extension")
+            ctx.count("se_qt", key=key, nontrivial=True, label=label + ("-raises" if raised else ""))
+            if raised:
+                # property: every accepted mode takes effect for any number of outcomes (the model of the code never raises here)
+                if mode in (2, 3, 4) and mm != 2:
+                    viol(SITE_SE_MODE, "inverse-covariance-raises-for-more-than-2-outcomes",
+                         "mode %s with %d outcomes per schedule raises (%s)" % (MODES[mode], mm, "; ".join(raised)), case)
                 else:
-                    outcome.append("weights-" + ("as-denoted" if w_fixed else "as-coded-only"))
-            ctx.count("se_qt", key=key, nontrivial=True, label=label + ("-raises" if "raised" in outcome else ""))
-            if "raised" in outcome:
-                # property: every accepted mode takes effect for any number of outcomes
-                ctx.violation("se_qt", SITE_SE_MODE, "inverse-covariance-raises-for-more-than-2-outcomes",
-                              "mode %s with %d outcomes per schedule raises ValueError (weights of shape (%d,%d) assigned into (%d,%d))" % (MODES[mode], mm, mm - 1, mm - 1, mm, mm), case)
+                    viol("set_from_standard_qtomography_option_data", "model-mismatch:error-branch",
+                         "step %d mode %s: implementation raises, model of the code does not (%s)" % (k, MODES.get(mode, "set_weight_matrices"), "; ".join(raised)), case)
                 return
             gw, _ = se_state(G, False)
             fw, fe = se_state(Fs, True)
@@ -503,37 +515,44 @@ def chk_se_qt(ctx, case):
             except NotImplementedError:
                 hess_raises = True
             if not hess_raises:
-                ctx.violation("se_qt", SITE_SE_FAST, "model-mismatch:hessian-implemented", "fast hessian no longer raises NotImplementedError", case)
+                viol(SITE_SE_FAST, "model-mismatch:hessian-implemented", "fast hessian no longer raises NotImplementedError", case)
             # ---- (a) formulas with the implementation's own current weights / cache (exact dyadic inputs)
             mv_, mg, mh = m_se(m, ns, mm, nv, A, b, q, case["v"], gw)
             if not (rel_close(g_val, mv_, TOL) and vec_close(g_grad, mg, TOL) and vec_close(fl(g_hess), mh, TOL)):
-                ctx.violation("se_qt", "WeightedProbabilityBasedSquaredError", "model-mismatch:value",
-                              "generic value/gradient/Hessian differ from the model at the object's own weights: %r vs %r" % (g_val, float(mv_)), case)
+                viol("WeightedProbabilityBasedSquaredError", "model-mismatch:value",
+                     "generic value/gradient/Hessian differ from the model at the object's own weights: %r vs %r" % (g_val, float(mv_)), case)
             fv, fg = m_se_fast(m, N, nv, A, b, q, case["v"], fe)
             if not (rel_close(f_val, fv, TOL) and vec_close(f_grad, fg, TOL)):
-                ctx.violation("se_qt", "StandardQTomographyBasedWeightedProbabilityBasedSquaredError", "model-mismatch:value",
-                              "fast value/gradient differ from the model at the object's own cache: %r vs %r" % (f_val, float(fv)), case)
+                viol("StandardQTomographyBasedWeightedProbabilityBasedSquaredError", "model-mismatch:value",
+                     "fast value/gradient differ from the model at the object's own cache: %r vs %r" % (f_val, float(fv)), case)
             # exact derivative identities on the implementation's outputs
             taylor_check(ctx, "se_qt", "WeightedProbabilityBasedSquaredError", case, g_val, float(G.value(v + h)), g_grad, fl(G.gradient(v + h)), g_hess.tolist(), fl(h))
             # ---- (b) the property: the mode takes effect, fast = generic
-            if spec[0] == "err":
-                continue
-            Ws = None if spec[0] == "none" else spec[1]
-            sv, sg, sh = m_se(m, ns, mm, nv, A, b, q, case["v"], Ws)
+            n0 = viol.n
+            # (the certified exact inverse has huge numerators: the formula is evaluated at its float rounding, 1e-16 relative)
+            Ws = None if spec[0] == "none" else [float(x) for x in spec[1]]
+            sv, sg, sh = (mv_, mg, mh) if Ws == gw else m_se(m, ns, mm, nv, A, b, q, case["v"], Ws)
             ok_g = rel_close(g_val, sv, 1e-6) and vec_close(g_grad, sg, 1e-6) and vec_close(fl(g_hess), sh, 1e-6)
             if not ok_g:
-                if mode == 0:
+                unchanged = same(gw, prev_gw)               # the call left the weights as they were
+                if mode == 0 and unchanged and gw is not None:
                     sig = "identity-mode-keeps-previous-weights"
-                elif mode == 4:
+                elif mode == 4 and unchanged:
                     sig = "alias-mode-unbiased_inverse_covariance-ignored"
+                elif "generic-weights" in mism:
+                    sig = "mode-not-effective"                   # weights were installed, but not those the mode denotes
                 else:
-                    sig = "mode-not-effective"
-                ctx.violation("se_qt", SITE_SE_MODE, sig,
-                              "step %d (%s, %s): generic value %r but the formula with the weights this mode denotes gives %r" % (k, MODES.get(mode), "fresh" if k == 0 else "reused", g_val, float(sv)), case)
+                    sig = "value-neq-formula"
+                viol(SITE_SE_MODE, sig,
+                     "step %d (%s, %s): generic value %r but the formula with the weights this mode denotes gives %r" % (k, MODES.get(mode), "fresh" if k == 0 else "reused", g_val, float(sv)), case)
             if not (rel_close(f_val, g_val, 1e-7) and vec_close(f_grad, g_grad, 1e-7)):
-                ctx.violation("se_qt", SITE_SE_FAST, "extended-weights-stale",
-                              "step %d (%s, %s object): fast value %r, generic value %r for identical data / weights / mode (formula: %r)" % (
-                                  k, MODES.get(mode, "set_weight_matrices"), "fresh" if k == 0 else "reused", f_val, g_val, float(sv)), case)
+                viol(SITE_SE_FAST, "extended-weights-stale" if "fast-cached-extension" in mism else "fast-neq-generic",
+                     "step %d (%s, %s object): fast value %r, generic value %r for identical data / weights / mode (formula: %r)" % (
+                         k, MODES.get(mode, "set_weight_matrices"), "fresh" if k == 0 else "reused", f_val, g_val, float(sv)), case)
+            # ---- (c) object state vs the model of the code (only if the property predicates found nothing: same defect otherwise)
+            if mism and viol.n == n0:
+                viol("set_from_standard_qtomography_option_data", "model-mismatch:" + mism[0],
+                     "step %d mode %s: state after the call differs from the model of the code (%s)" % (k, MODES.get(mode, "set_weight_matrices"), ", ".join(mism)), case)
     finally:
         w.__exit__(None, None, None)
 
@@ -554,13 +573,18 @@ def gen_step(rng, e, mode):
 
 
 WITNESS_SE = [
-    # the Coq witnesses (Props/C12.v) replayed on the real classes
-    {"exp": "povmt-3-T", "modes": [2]},            # C12_inverse_covariance_shape_refuted
-    {"exp": "qst-2-T", "modes": [2]},              # C12_fast_path_weights_stale_refuted (fresh object)
+    # the histories of the Coq witnesses (Props/C12.v, C12_before_fix_*_refuted) replayed on the real classes: each of them
+    # is a regression test for one repair in /verif/fixes
+    {"exp": "povmt-3-T", "modes": [2]},            # C12_before_fix_inverse_covariance_shape_refuted
+    {"exp": "qst-4-F", "modes": [3]},              # ... 4 outcomes, unbiased
+    {"exp": "povmt-5-F", "modes": [4]},            # ... 5 outcomes, alias spelling
+    {"exp": "qst-2-T", "modes": [2]},              # C12_before_fix_fast_path_weights_stale_refuted (fresh object)
     {"exp": "qst-2-T", "modes": [2, 2]},           # ... reused object
-    {"exp": "qst-2-T", "modes": [4]},              # C12_alias_mode_ignored_refuted
-    {"exp": "qst-2-T", "modes": [1, 0]},           # C12_identity_mode_keeps_old_weights_refuted
+    {"exp": "qst-2-T", "modes": [4]},              # C12_before_fix_alias_mode_ignored_refuted
+    {"exp": "qst-2-T", "modes": [1, 0]},           # C12_before_fix_identity_mode_keeps_old_weights_refuted
+    {"exp": "qst-2-T", "modes": [2, 0]},           # ... identity after an inverse mode
     {"exp": "qst-2-T", "modes": [1, 5]},           # setter after configuration
+    {"exp": "qst-2-T", "modes": [0, 5, 0]},        # setter on an unweighted configured object, then identity again
 ]
 
 
@@ -702,6 +726,7 @@ def chk_re_qt(ctx, case):
     from quara.loss_function.standard_qtomography_based_weighted_relative_entropy import (
         StandardQTomographyBasedWeightedRelativeEntropy, StandardQTomographyBasedWeightedRelativeEntropyOption)
     m = ctx.get_model()
+    viol = Fired(ctx, "re_qt")
     e = get_exp(case["exp"]); qt = e["qt"]; ns, mm, nv = e["ns"], e["m"], e["nv"]; N = ns * mm
     A = fl(e["A"]); b = fl(e["b"])
     v = np.array(case["v"], dtype=np.float64); h = np.array(case["h"], dtype=np.float64)
@@ -716,20 +741,20 @@ def chk_re_qt(ctx, case):
             data = [(int(step["nd"][j]), np.array(q[j * mm:(j + 1) * mm], dtype=np.float64)) for j in range(ns)]
             ws = step.get("w")
             kind = step["kind"]          # "option" | "setter"
-            w0g, _ = re_state(G); w0f, ew0f = re_state(Fs)
-            # model of the code as it is, from the objects' own state before the call
-            r = m.call("c12.config_re_from", [ns, mm, 0 if w0f is None else 1, 0 if ew0f is None else 1, 1 if kind == "option" else 2, 0 if ws is None else 1],
+            w0f, ew0f = re_state(Fs)
+            # model of the code (repaired), from the fast object's own state before the call
+            r = m.call("c12.config_re_from", [ns, mm, 0 if w0f is None else 1, 0 if ew0f is None else 1,
+                                               1 if kind == "option" else 2, 0 if ws is None else 1, 0 if ws is None else 1],
                        (w0f or []) + (ew0f or []) + ([] if ws is None else list(ws)))
             hw = int(r[0]); mw = r[1:1 + ns] if hw else None
             sel = int(r[1 + (ns if hw else 0)]); mew = r[2 + (ns if hw else 0):] if sel == 1 else None
-            coded_g = w0g if kind == "option" else (None if ws is None else list(ws))
             if kind == "option":
                 G.set_from_standard_qtomography_option_data(qt, WeightedRelativeEntropyOption("identity" if ws is None else "custom", weights=None if ws is None else list(ws)), data, True, True)
                 Fs.set_from_standard_qtomography_option_data(qt, StandardQTomographyBasedWeightedRelativeEntropyOption("identity" if ws is None else "custom", weights=None if ws is None else list(ws)), data, True, False)
             else:
                 G.set_prob_dists_q([d[1] for d in data]); Fs.set_prob_dists_q([d[1] for d in data])
                 G.set_weights(None if ws is None else list(ws)); Fs.set_weights(None if ws is None else list(ws))
-            spec_w = ws                   # what the option / setter asks for (None = identity)
+            spec_w = ws                   # what the option / setter asks for (None = identity) = the model's weights (C12_re_modes_effective)
             band = in_band(fl(p), q)
             inside = min(fl(p)) > 0.05
             ctx.count("re_qt", key=("reqt", case["exp"], k, tuple(case["v"]), tuple(q), kind, None if ws is None else tuple(ws)),
@@ -741,56 +766,55 @@ def chk_re_qt(ctx, case):
                 f_val = float(Fs.value(v)); f_grad = fl(Fs.gradient(v)); f_err = None
             except AttributeError:
                 f_err = "AttributeError"; f_val = None; f_grad = None
-            # ---- (a) state after the call: as the model of the code predicts, or as the option/setter denotes (after a fix)
-            if not (same(gw, coded_g, 1e-12) or same(gw, spec_w, 1e-12)):
-                ctx.violation("re_qt", "WeightedRelativeEntropy", "model-mismatch:weights", "step %d (%s): weights %s, model of the code %s, requested %s" % (k, kind, gw, coded_g, spec_w), case)
-                return
-            if not (same(fw, mw, 1e-12) or same(fw, spec_w, 1e-12)):
-                ctx.violation("re_qt", "StandardQTomographyBasedWeightedRelativeEntropy", "model-mismatch:weights", "step %d (%s): weights %s, model of the code %s, requested %s" % (k, kind, fw, mw, spec_w), case)
-                return
-            if fw is None:
-                cache_ok = f_err is None
-            else:
-                as_coded = same(fw, mw, 1e-12) and ((sel == 2 and f_err is not None) or (sel == 1 and f_err is None and same(few, mew, 1e-12)))
-                current = f_err is None and same(few, m.call("c12.ew_of", [ns, mm], fw), 1e-12)
-                cache_ok = as_coded or current
-            if not cache_ok:
-                ctx.violation("re_qt", "StandardQTomographyBasedWeightedRelativeEntropy", "model-mismatch:extend-weights",
-                              "step %d (%s): cached extend weights are neither those predicted by the model of the code nor those of the current weights (sel=%d, err=%s)" % (k, kind, sel, f_err), case)
-                return
+            # ---- object state after the call vs the model of the code
+            mism = []
+            if not same(gw, spec_w, 1e-12):
+                mism.append("generic-weights %s, model %s" % (gw, spec_w))
+            if not same(fw, mw, 1e-12):
+                mism.append("fast-weights %s, model %s" % (fw, mw))
+            if sel == 2 or (f_err is not None) or (fw is not None and not same(few, mew, 1e-12)):
+                mism.append("fast-extend-weights (model sel=%d, implementation %s)" % (sel, f_err or "ok"))
             if band:
+                if mism:
+                    viol("WeightedRelativeEntropy", "model-mismatch:state", "step %d (%s): %s" % (k, kind, "; ".join(mism)), case)
+                    return
                 continue
             g_val = float(G.value(v)); g_grad = fl(G.gradient(v)); g_hess = fl(G.hessian(v))
             c, a, mg, mh = m_re_parse(m.call("c12.re", [ns, mm, nv, 0 if gw is None else 1], [EPS, EPS] + A + b + q + list(case["v"]) + ([] if gw is None else gw)), N, nv)
             mval, mag = ln_sum(c, a)
             if abs(g_val - mval) > TOL * (1.0 + mag) or not vec_close(g_grad, mg, TOL) or not vec_close(g_hess, mh, TOL):
-                ctx.violation("re_qt", "WeightedRelativeEntropy", "model-mismatch:value",
-                              "generic value/gradient/Hessian differ from the model at the object's own weights: %r vs %r" % (g_val, mval), case)
+                viol("WeightedRelativeEntropy", "model-mismatch:value",
+                     "generic value/gradient/Hessian differ from the model at the object's own weights: %r vs %r" % (g_val, mval), case)
             if f_err is None:
                 use = None if fw is None else few
                 rr = m.call("c12.re_fast", [N, nv, 0 if use is None else 1], [EPS, EPS] + A + b + q + list(case["v"]) + ([] if use is None else use))
                 fc, fa, fg, _ = m_re_parse(rr, N, nv, hess=False)
                 fval, fmag = ln_sum(fc, fa)
                 if abs(f_val - fval) > TOL * (1.0 + fmag) or not vec_close(f_grad, fg, TOL):
-                    ctx.violation("re_qt", "StandardQTomographyBasedWeightedRelativeEntropy", "model-mismatch:value",
-                                  "fast value/gradient differ from the model at the object's own cache: %r vs %r" % (f_val, fval), case)
+                    viol("StandardQTomographyBasedWeightedRelativeEntropy", "model-mismatch:value",
+                         "fast value/gradient differ from the model at the object's own cache: %r vs %r" % (f_val, fval), case)
                 try:
                     Fs.hessian(v)
-                    ctx.violation("re_qt", "StandardQTomographyBasedWeightedRelativeEntropy", "model-mismatch:hessian-implemented", "fast hessian no longer raises", case)
+                    viol("StandardQTomographyBasedWeightedRelativeEntropy", "model-mismatch:hessian-implemented", "fast hessian no longer raises", case)
                 except NotImplementedError:
                     pass
             # ---- the property: the configured weights take effect; fast = generic
+            n0 = viol.n
             sc_, sa, sg, sh = m_re_parse(m.call("c12.re", [ns, mm, nv, 0 if spec_w is None else 1], [EPS, EPS] + A + b + q + list(case["v"]) + ([] if spec_w is None else list(spec_w))), N, nv)
             sval, smag = ln_sum(sc_, sa)
             if abs(g_val - sval) > 1e-8 * (1.0 + smag) or not vec_close(g_grad, sg, 1e-8) or not vec_close(g_hess, sh, 1e-8):
-                ctx.violation("re_qt", SITE_RE_MODE, "custom-weights-ignored" if spec_w is not None else "identity-mode-keeps-previous-weights",
-                              "step %d (%s): generic value %r, weighted relative entropy with the configured weights %s is %r" % (k, kind, g_val, None if spec_w is None else list(spec_w)[:4], sval), case)
+                wrong_w = not same(gw, spec_w, 1e-12)
+                viol(SITE_RE_MODE, "value-neq-formula" if not wrong_w else ("custom-weights-ignored" if spec_w is not None else "identity-mode-keeps-previous-weights"),
+                     "step %d (%s): generic value %r, weighted relative entropy with the configured weights %s is %r" % (k, kind, g_val, None if spec_w is None else list(spec_w)[:4], sval), case)
             if f_err is not None:
-                ctx.violation("re_qt", SITE_RE_FAST, "extend-weights-not-refreshed",
-                              "step %d: set_weights on the configured fast object, value() raises AttributeError (_extend_weights never built)" % k, case)
+                viol(SITE_RE_FAST, "extend-weights-not-refreshed",
+                     "step %d (%s): value() of the configured fast object raises AttributeError (_extend_weights never built)" % (k, kind), case)
             elif abs(f_val - g_val) > 1e-8 * (1.0 + smag) or not vec_close(f_grad, g_grad, 1e-8):
-                sig = "extend-weights-not-refreshed" if kind == "setter" else "fast-neq-generic"
-                ctx.violation("re_qt", SITE_RE_FAST, sig, "step %d (%s): fast value %r generic value %r for identical data and weights" % (k, kind, f_val, g_val), case)
+                stale = fw is not None and not same(few, m.call("c12.ew_of", [ns, mm], fw), 1e-12)
+                sig = "extend-weights-not-refreshed" if stale else "fast-neq-generic"
+                viol(SITE_RE_FAST, sig, "step %d (%s): fast value %r generic value %r for identical data and weights" % (k, kind, f_val, g_val), case)
+            if mism and viol.n == n0:
+                viol("WeightedRelativeEntropy", "model-mismatch:state", "step %d (%s): %s" % (k, kind, "; ".join(mism)), case)
             # ---- derivative consistency on the implementation's outputs (unclipped interior points only)
             if inside and all(qq == 0.0 or qq >= 1e-6 for qq in q):
                 wsum = sum((1.0 if gw is None else gw[j]) * sum(q[j * mm:(j + 1) * mm]) for j in range(ns))
@@ -798,24 +822,25 @@ def chk_re_qt(ctx, case):
                     # p is linear in v: f(t v) = f(v) - (sum w q) ln t  =>  <g, v> = -sum w q  and  H v = -g   (Euler)
                     gv = float(np.dot(g_grad, v)); Hv = np.array(g_hess).reshape(nv, nv) @ v
                     if abs(gv + wsum) > 1e-8 * (1.0 + abs(wsum)) or not vec_close(fl(Hv), [-x for x in g_grad], 1e-8):
-                        ctx.violation("re_qt", "WeightedRelativeEntropy", "euler-identity", "<g,v> = %r, -sum w q = %r" % (gv, -wsum), case)
+                        viol("WeightedRelativeEntropy", "euler-identity", "<g,v> = %r, -sum w q = %r" % (gv, -wsum), case)
                 t = 2.0 ** -14
                 hs = 0.25 * h
                 fd = (float(G.value(v + t * hs)) - float(G.value(v - t * hs))) / (2 * t)
                 gh = float(np.dot(g_grad, hs))
                 gsc = float(np.sum(np.abs(np.array(g_grad) * hs))) + abs(g_val)
                 if abs(fd - gh) > 1e-5 * (1.0 + gsc):
-                    ctx.violation("re_qt", "WeightedRelativeEntropy", "gradient-not-derivative-of-value", "central difference %r, <g,h> = %r" % (fd, gh), case)
+                    viol("WeightedRelativeEntropy", "gradient-not-derivative-of-value", "central difference %r, <g,h> = %r" % (fd, gh), case)
                 fdg = (np.array(fl(G.gradient(v + t * hs))) - np.array(fl(G.gradient(v - t * hs)))) / (2 * t)
                 Hh = np.array(g_hess).reshape(nv, nv) @ hs
                 if not vec_close(fl(fdg), fl(Hh), 1e-5, scale=float(np.max(np.abs(g_grad))) + float(np.max(np.abs(Hh)))):
-                    ctx.violation("re_qt", "WeightedRelativeEntropy", "hessian-not-derivative-of-gradient", "central difference of the gradient differs from H h", case)
+                    viol("WeightedRelativeEntropy", "hessian-not-derivative-of-gradient", "central difference of the gradient differs from H h", case)
     finally:
         wq.__exit__(None, None, None)
 
 
 WITNESS_RE = [
-    {"exp": "qst-2-T", "ctor": False, "steps": [("option", True)]},                       # C12_relative_entropy_custom_weights_ignored_refuted
+    {"exp": "qst-2-T", "ctor": False, "steps": [("option", True)]},                       # C12_before_fix_relative_entropy_custom_weights_ignored_refuted
+    {"exp": "qst-2-T", "ctor": True, "steps": [("option", False)]},                       # identity option on an object with constructor weights
     {"exp": "qst-2-T", "ctor": False, "steps": [("option", False), ("setter", True)]},    # setter on a configured fast object
     {"exp": "qst-2-T", "ctor": True, "steps": [("option", False), ("setter", True)]},     # stale extend weights
 ]
@@ -912,37 +937,37 @@ def chk_fns(ctx, case):
             cov = fl(mu.calc_covariance_mat(np.array(rep), nd))
             mcov = m.call("c12.cov", [mm], [float(nd)] + rep)
             nz = sum(1 for x in fl(q) if x < REPL_EPS)
-            ctx.count("fns", key=("cov", tuple(case["q"]), nd), nontrivial=mm >= 3, label="cov-m%d-z%d" % (mm, nz))
+            # hypotheses of C12_inverse_covariance_block_positive_definite on the implementation's replaced distribution
+            pd_hyp = min(rep) >= 0.0 and sum(ex(x) for x in rep[:-1]) <= 1 and nd >= 2
+            ctx.count("fns", key=("cov", tuple(case["q"]), nd), nontrivial=mm >= 3, label="cov-m%d-z%d%s" % (mm, nz, "" if pd_hyp else "-pdhyp-unmet"))
             if not vec_close(rep, mrep, 1e-12):
                 ctx.violation("fns", "matrix_util.replace_prob_dist", "value", "%s vs model %s" % (rep, [float(x) for x in mrep]), case)
             if not vec_close(cov, mcov, 1e-12):
                 ctx.violation("fns", "matrix_util.calc_covariance_mat", "value", "covariance differs from model", case)
             if abs(sum(rep) - sum(fl(q))) > 1e-12 and nz < mm and all(x == 0.0 or x >= REPL_EPS for x in fl(q)):
                 ctx.violation("fns", "matrix_util.replace_prob_dist", "mass-not-preserved", "sum %r -> %r" % (sum(fl(q)), sum(rep)), case)
-            # inverse-covariance weight of one data set, as coded, for 2..5 outcomes
+            # inverse-covariance weight of one data set for 2..5 outcomes: exists, equals the certified exact inverse on the
+            # leading block (model place_inv), is accepted by the class's own symmetry validation
             from quara.loss_function.weighted_probability_based_squared_error import WeightedProbabilityBasedSquaredError
-            for mode, ub in (("inverse_sample_covariance", 0), ("inverse_unbiased_covariance", 1)):
+            for mode, ub in (("inverse_sample_covariance", 0), ("inverse_unbiased_covariance", 1), ("unbiased_inverse_covariance", 1)):
                 loss = WeightedProbabilityBasedSquaredError(3)
                 try:
-                    loss._set_weights_by_mode(mode, [(int(nd), q)]); impl = ("ok", fl(loss.weight_matrices[0]))
-                except ValueError:
-                    impl = ("err", None)
-                st, W = m_inv_weight(m, ub, mm, nd, fl(q), 0)
-                ctx.count("fns", key=("invw", tuple(case["q"]), nd, ub), nontrivial=True, label="invweight-m%d-%s" % (mm, st))
-                if st == "err" and W != 1:
-                    ctx.violation("fns", SITE_SE_MODE, "model-mismatch:certificate", "inverse certificate failed, code %s" % W, case)
-                elif st == "err" and impl[0] == "ok":
-                    # not the code as modelled: accepted only if it is the placement the proposed fix makes
-                    st2, W2 = m_inv_weight(m, ub, mm, nd, fl(q), 1)
-                    if st2 != "ok" or not vec_close(impl[1], W2, 1e-8):
-                        ctx.violation("fns", SITE_SE_MODE, "model-mismatch:error-branch", "model of the code raises, implementation returns weights that are not the leading-block placement", case)
-                elif (st == "err") != (impl[0] == "err"):
-                    ctx.violation("fns", SITE_SE_MODE, "model-mismatch:error-branch", "model %s implementation %s" % (st, impl[0]), case)
-                elif st == "ok" and not vec_close(impl[1], W, 1e-8):
-                    ctx.violation("fns", SITE_SE_MODE, "model-mismatch:weights", "weights %s vs model %s" % (impl[1], [float(x) for x in W]), case)
-                if impl[0] == "err":
-                    ctx.violation("fns", SITE_SE_MODE, "inverse-covariance-raises-for-more-than-2-outcomes",
-                                  "%s with %d outcomes raises ValueError" % (mode, mm), case)
+                    loss._set_weights_by_mode(mode, [(int(nd), q)])
+                    impl = ("ok", None if not loss.weight_matrices else fl(loss.weight_matrices[0]))
+                except ValueError as exc:
+                    impl = ("err", str(exc)[:160])
+                st, W = m_inv_weight(m, ub, mm, nd, fl(q))
+                ctx.count("fns", key=("invw", tuple(case["q"]), nd, mode), nontrivial=True, label="invweight-m%d-%s" % (mm, st))
+                if st == "err":
+                    ctx.violation("fns", SITE_SE_MODE, "model-mismatch:certificate", "inverse certificate / placement failed, code %s" % W, case)
+                elif impl[0] == "err":
+                    ctx.violation("fns", SITE_SE_MODE, "inverse-covariance-raises-for-more-than-2-outcomes" if mm != 2 else "model-mismatch:error-branch",
+                                  "%s with %d outcomes raises ValueError: %s" % (mode, mm, impl[1]), case)
+                elif impl[1] is None:
+                    ctx.violation("fns", SITE_SE_MODE, "alias-mode-unbiased_inverse_covariance-ignored" if mode.startswith("unbiased") else "mode-not-effective",
+                                  "%s leaves weight_matrices None" % mode, case)
+                elif not vec_close(impl[1], W, 1e-8):
+                    ctx.violation("fns", SITE_SE_MODE, "model-mismatch:weights", "weights %s vs model %s" % (impl[1][:6], [float(x) for x in W[:6]]), case)
         elif kind == "round":
             vr, atol, z, eps = case["vr"], case["atol"], case["z"], case["eps"]
             try:
@@ -1035,8 +1060,8 @@ def run(ctx):
                 "A (ns*m x nv), offsets, variable points inside (all p > 0.05) and outside (some p <= 0, incl. exactly 0) the positive region, "
                 "empirical distributions counts/N with zero and sub-threshold entries, symmetric custom weight matrices / weight vectors, "
                 "all five accepted weighting modes, configuration sequences of length 1..3 on fresh and reused objects, outcome counts 2..6, "
-                "QST/POVMT/QPT/QMPT on one qubit with typical testers and k-outcome POVMs, both parametrisations; plus the Coq witnesses of the "
-                "_refuted theorems and a malformed stream (asymmetric / integer weights, negative p with validation, negative eps, wrong shapes). "
+                "QST/POVMT/QPT/QMPT on one qubit with typical testers and k-outcome POVMs, both parametrisations; plus the histories of the Coq "
+                "witnesses of the before-fix _refuted theorems and a malformed stream (asymmetric / integer weights, negative p with validation, negative eps, wrong shapes). "
                 "non-trivial = all clipping decisions outside the 1e-12 band around their thresholds and at least 4 outcomes in total and 2 variables; "
                 "distinct = distinct (configuration history, data, point)")
     ctx.assumptions = ["np.linalg.inv is an oracle: the inverse used by the model is computed exactly by the harness and CERTIFIED by the model (two-sided product = I) before placement",
